@@ -36,6 +36,8 @@ type Value struct {
 	Fn    *ssa.Function
 	Bind  []Value
 	Ty    types.Type
+	Boxed types.Type // static type of the value inside an interface (MakeInterface), if known
+	BoxedRef Term    // the boxed reference (for pointer payloads)
 }
 
 type retPoint struct {
@@ -85,6 +87,7 @@ type Frame struct {
 	ghostTy  map[string]types.Type
 	siteCount map[string]int
 	siteHit  map[*SiteSpec]int
+	callArgs map[string]Value // raw argument values of the call being processed
 }
 
 type dref struct {
